@@ -603,6 +603,29 @@ def _normalise_syntax(tree):
     def one(st):
         """Rewrite one statement (children already normalised) into a list of statements."""
         # `for k in ("a", "b"): BODY` (constants, a short simple body)  ->  BODY[k:="a"]; BODY[k:="b"]; k = "b"
+        # ... and over a short literal tuple of call-free expressions (`for s in (self.a, self.b): BODY`): each round gets
+        # its own name for the element, so that single-binding reasoning applies to it
+        if (isinstance(st, ast.For) and not st.orelse and isinstance(st.target, ast.Name) and isinstance(st.iter, (ast.Tuple, ast.List)) and 1 <= len(st.iter.elts) <= 4
+                and not all(isinstance(e_, ast.Constant) for e_ in st.iter.elts) and all(isinstance(e_, (ast.Constant, ast.Name, ast.Attribute)) and call_free(e_) for e_ in st.iter.elts) and len(st.body) <= 6
+                and not any(isinstance(x_, (ast.Break, ast.Continue, ast.FunctionDef, ast.Lambda, ast.Yield, ast.YieldFrom, ast.Return)) for b_ in st.body for x_ in ast.walk(b_))
+                and not any(isinstance(x_, ast.Name) and x_.id == st.target.id and isinstance(x_.ctx, (ast.Store, ast.Del)) for b_ in st.body for x_ in ast.walk(b_))
+                # the elements must not be re-bound by the body (they are read once per round, before it)
+                and not ({x_.id for e_ in st.iter.elts for x_ in ast.walk(e_) if isinstance(x_, ast.Name)} - {"self"}) & {x_.id for b_ in st.body for x_ in ast.walk(b_) if isinstance(x_, ast.Name) and isinstance(x_.ctx, (ast.Store, ast.Del))}):
+            out_ = []
+            for k_, e_ in enumerate(st.iter.elts):
+                nm_ = f"{st.target.id}__{k_}"
+
+                class _V(ast.NodeTransformer):
+                    def visit_Name(self, n_):
+                        if n_.id == st.target.id and isinstance(n_.ctx, ast.Load):
+                            return ast.copy_location(ast.Name(id=nm_, ctx=ast.Load()), n_)
+                        return n_
+
+                out_.append(ast.copy_location(ast.Assign(targets=[ast.Name(id=nm_, ctx=ast.Store())], value=_copy.deepcopy(e_)), st))
+                for b_ in st.body:
+                    out_ += block([_V().visit(_copy.deepcopy(b_))])
+            out_.append(ast.copy_location(ast.Assign(targets=[ast.Name(id=st.target.id, ctx=ast.Store())], value=_copy.deepcopy(st.iter.elts[-1])), st))
+            return [ast.fix_missing_locations(x_) for x_ in out_]
         if (isinstance(st, ast.For) and not st.orelse and isinstance(st.target, ast.Name) and isinstance(st.iter, (ast.Tuple, ast.List)) and 1 <= len(st.iter.elts) <= 8
                 and all(isinstance(e_, ast.Constant) for e_ in st.iter.elts) and len(st.body) <= 3
                 and not any(isinstance(x_, (ast.Break, ast.Continue, ast.FunctionDef, ast.Lambda, ast.Yield, ast.YieldFrom, ast.Return)) for b_ in st.body for x_ in ast.walk(b_))
